@@ -51,7 +51,7 @@ def fluxLimiter(flName: str, eps: float = 2e-16) -> Callable[[np.ndarray], np.nd
             return ((r>0.0)*r*(3.0*r+1.0)/(((r+1.0)**2.0)+eps*(r==-1.0)))
     elif flName=="HCUS":
         def FL(r):
-            return (1.5*(r+np.abs(r))/(r+2.0))
+            return (1.5*(r+np.abs(r))/((r+2.0)+eps*(r==-2.0)))
     elif flName=="HQUICK":
         def FL(r):
             return (2.0*(r+np.abs(r))/((r+3.0)+eps*(r==-3.0)))
